@@ -30,6 +30,20 @@ PLAN = {
         'level_note': 'StreamController is represented by its contract (models/prelude.rs); user closures by an uninterpreted total function; Item=i64; locks dropped (sequential)',
         'design_ref': 'DESIGN.md 4.2',
     },
+    'C03': {
+        'engines': ['verus_units'],
+        'technique': 'Verus postconditions on the extracted handlers of every input observer, over a ghost history of serial-tagged input events (all sequential interleavings = a universally quantified sequence)',
+        'level_text': 'for merge, amb, take_until, skip_until, sample, switch_on_next: each handler of each input, from any state reachable for any interleaved history, leaves the downstream trace equal to the operator definition on the extended history and the set of still-registered inputs as defined; "register all observers before subscribing any source" is a skeleton fact',
+        'level_note': 'zip/combine_latest/sequence_equal/concat/flat_map have handlers that create closures or subscribe: not extractable, listed as not covered in the evidence; StreamController by contract; sequential',
+        'design_ref': 'DESIGN.md 4.3',
+    },
+    'C04': {
+        'engines': ['verus_units', 'kani'],
+        'technique': 'Verus postconditions on every extracted error handler (the same payload value is forwarded as the terminal) + materialize/dematerialize contracts + Kani contracts on the real RxError (clone/downcast identity, same payload object delivered through sink_error)',
+        'level_text': 'every non-handling operator under contract forwards the error it received, unchanged, as the only further event; RxError clone/downcast_ref return the original value for all payload values; materialize/dematerialize are proved against their definitions',
+        'level_note': 'retry/retry_when/on_error_resume_next resubscribe inside a handler: not extractable; covered only by the bounded conformance harnesses where present',
+        'design_ref': 'DESIGN.md 4.4',
+    },
     'C05': {
         'engines': ['kani', 'verus_lemmas', 'syntactic'],
         'technique': 'Kani contracts on Observer::unsubscribe / Subscription / inner_subscribe / Using::drop + Verus timeline lemma + slot-monotonicity frame obligation',
